@@ -207,7 +207,7 @@ Definition unit_topic (u : eunit) : topic :=
   | EStep s _ _ | EInserter s | EPoller s => TStatus s
   | EHook _ | ERetry => TRunStateChange
   | EDelete => TDelete
-  | EOutbox => TDelete
+  | EOutbox | ESched _ => TDelete
   end.
 
 Definition unit_filter (u : eunit) (e : event) : bool :=
@@ -298,6 +298,51 @@ Definition guarded (inst : Z) (u : eunit) (close : bool) (m : M pstate) : M psta
   | (Err e, s') => exit_err inst u close e s'
   end.
 
+(* trigger.go trigger *)
+Definition api_trigger (fid : N) (start seed : Z) : M unit :=
+  match (if start =? 0 then default_start g else Some start) with
+  | None => fail EGen
+  | Some st0 =>
+    if negb (is_valid g st0) then fail 4
+    else
+      lastr <- p_latest fid ;;
+      if (match lastr with Some l => rs_valid (r_state l) && negb (rs_finished (r_state l)) | None => false end)
+      then fail 3
+      else
+        w <- get_w ;;
+        put_w (set_nrun w (w_nrun w + 1)%N) ;;;
+        p_store c (bump (mkRecord 0%N fid (w_nrun w) RSInitiated st0 (OVal seed []) (w_now w) (w_now w) 0 0%N st0))
+  end.
+
+(* ---------- schedule.go ---------- *)
+Definition find_sched (fid : N) : option schedcfg := find_first (fun x => N.eqb (sd_fid x) fid) (ec_scheds c).
+Definition dummy_record : record := mkRecord 0%N 0%N 0%N RSUnknown 0 ODeleted (-1) (-1) 0 0%N (-999999).
+
+(* after the wait: schedule filter, then Trigger; ErrWorkflowInProgress is swallowed; the iteration then ends (runOnce returns
+   and the role is released) *)
+Definition sched_after_wait (inst : Z) (sc : schedcfg) : M pstate :=
+  ok <- (if sd_filter sc =? 0 then ret true
+         else n <- att_bump (ufun_code (UFFilter (sd_fid sc))) 0%N ;;
+              w <- get_w ;;
+              let ans := negb (Z.of_nat n <? sd_filter sc) in
+              emit (TUser (UFFilter (sd_fid sc)) dummy_record None (w_now w) (URet (if ans then 1 else 0))) ;;; ret ans) ;;
+  (if (ok : bool) then
+     r <- catch (api_trigger (sd_fid sc) 0 (sd_seed sc)) ;;
+     match r with
+     | Ok _ => ret tt
+     | Err e => if e =? 3 then ret tt else fail e
+     end
+   else ret tt) ;;;
+  m_release (ESched (sd_fid sc)) inst ;;; ret PIdle.
+
+Definition sched_body (inst : Z) (sc : schedcfg) : M pstate :=
+  lat <- p_latest (sd_fid sc) ;;
+  w <- get_w ;;
+  let last := match lat with Some r => r_created r | None => w_now w end in
+  let deadline := cron_next (sd_spec sc) last in
+  if deadline >? w_now w then emit (TCall KTW [deadline] RBlocked []) ;;; ret (PWait deadline)
+  else emit (TCall KTW [deadline] ROk []) ;;; sched_after_wait inst sc.
+
 (* consumer.go consume: what follows the lag wait for event e at log index idx *)
 Definition after_lag (inst : Z) (u : eunit) (idx : nat) (e : event) : M pstate :=
   (if unit_filter u e then p_ack u idx e else unit_handler inst u e ;;; p_ack u idx e) ;;; ret PRun.
@@ -348,6 +393,11 @@ Definition proc_op (inst : Z) (u : eunit) (ps : pstate) : M pstate :=
           guarded inst u false
             (l <- p_list_outbox (ec_limit c) ;; relay_entries l ;;; m_release u inst ;;; ret PIdle)
         | EPoller s => guarded inst u false (poll_once inst u s)
+        | ESched fid =>
+          match find_sched fid with
+          | Some sc => guarded inst u false (sched_body inst sc)
+          | None => m_release u inst ;;; ret PIdle
+          end
         | _ =>
           guarded inst u false
             (p_call KNR true [] (fun w => w) (fun _ => []) ;;; ret PRun)
@@ -358,7 +408,7 @@ Definition proc_op (inst : Z) (u : eunit) (ps : pstate) : M pstate :=
   | PRun =>
     match u with
     | EPoller s => guarded inst u false (poll_once inst u s)
-    | EOutbox => ret PIdle
+    | EOutbox | ESched _ => ret PIdle
     | _ => guarded inst u true (consume_iter inst u)
     end
   | PLag idx e deadline =>
@@ -368,6 +418,16 @@ Definition proc_op (inst : Z) (u : eunit) (ps : pstate) : M pstate :=
       emit (TCall KTW [deadline] RCancel []) ;;; guarded inst u true (fail ECancel)
     else if deadline >? w_now w then emit (TCall KTW [deadline] RBlocked []) ;;; ret ps
     else emit (TCall KTW [deadline] ROk []) ;;; guarded inst u true (after_lag inst u idx e)
+  | PWait deadline =>
+    w <- get_w ;;
+    live <- lease_live ;;
+    if negb live then emit (TCall KTW [deadline] RCancel []) ;;; guarded inst u false (fail ECancel)
+    else if deadline >? w_now w then emit (TCall KTW [deadline] RBlocked []) ;;; ret ps
+    else emit (TCall KTW [deadline] ROk []) ;;;
+         match u with
+         | ESched fid => match find_sched fid with Some sc => guarded inst u false (sched_after_wait inst sc) | None => ret PIdle end
+         | _ => ret PIdle
+         end
   | PBackoff deadline =>
     w <- get_w ;;
     live <- lease_live ;;
@@ -383,20 +443,6 @@ Definition crash_inst (w : world) (inst : Z) : world :=
            (filter (fun x => negb (Z.eqb (fst x) inst)) (w_ctrs w)).
 
 (* ---------- API calls ---------- *)
-Definition api_trigger (fid : N) (start seed : Z) : M unit :=
-  match (if start =? 0 then default_start g else Some start) with
-  | None => fail EGen
-  | Some st0 =>
-    if negb (is_valid g st0) then fail 4
-    else
-      lastr <- p_latest fid ;;
-      if (match lastr with Some l => rs_valid (r_state l) && negb (rs_finished (r_state l)) | None => false end)
-      then fail 3
-      else
-        w <- get_w ;;
-        put_w (set_nrun w (w_nrun w + 1)%N) ;;;
-        p_store c (bump (mkRecord 0%N fid (w_nrun w) RSInitiated st0 (OVal seed []) (w_now w) (w_now w) 0 0%N st0))
-  end.
 
 Fixpoint api_callbacks (fid : N) (status : Z) (cbs : list cbcfg) (j : nat) : M unit :=
   match cbs with
@@ -436,6 +482,7 @@ Inductive eop :=
 | OAdvance (d : Z)
 | OStep (inst : Z) (u : eunit) (p : plan)
 | OCrash (inst : Z)
+| OSched (inst : Z) (fid : N) (valid : bool)   (* Workflow.Schedule: starts the scheduling process, or rejects an invalid cron specification *)
 | OLose (inst : Z) (u : eunit)          (* the role scheduler revokes the lease of a parked process (it notices at its next step) *)
 | ORewind (u : eunit) (pos : nat)
 | ODup (idx : nat).
@@ -465,6 +512,7 @@ Definition run_op (w : world) (o : eop) : world * list tok :=
     | (Err _, s) => ((if o_dead s then crash_inst (o_w s) inst else o_w s), rev (o_trace s))
     end
   | OCrash inst => (crash_inst w inst, [])
+  | OSched _ _ valid => (w, [TApi (if valid then 0 else 1)])
   | OLose inst u =>
     match get_pstate w (inst, u) with
     | PIdle => (w, [])
